@@ -44,6 +44,29 @@ keys, `{k: v for k in keys}` (a `None` value makes the entries Optional, their t
 dicts no other name refers to; `x if o is not None else y` on an Optional local (a `match`; a raising branch is only evaluated
 when taken), built-ins bound per argument types (`spec.builtins`), `o.attr` on an Optional (`spec.option_unwrap`: AttributeError
 on None), `for` over a bound iterable (`spec.iters`) and over `enumerate(v)` when the index is never read.
+Loops and closures (group SrcEuclid; the generated file must import MV.Model.PyEuclid): `while TEST: BODY` with `break` / `continue`
+(`FunTr.while_loop`: a separate definition `<f>_loop<n>` by structural recursion on the bound `rec_fuel`, one unit per iteration,
+exhaustion = Err.other; the function and its callers take the bound, entry key `fuel`, as for local recursions), local functions that
+read / append to lists of the enclosing function (entry key `nested` with `captures` / `mutates`: the lists become parameters, the
+appended-to lists the result; called as statements, `FunTr.closure_call`), `for i, x in enumerate(v)` with the index read and
+`for i, (a, b) in enumerate(pairs)` (`Py.enumerate`), two-sided slices `l[a:b]` of int lists (`Py.slice`).
+Masks and the transformer dispatcher (group SrcMask; every form below raised `Untranslatable` before, all bindings are opt-in):
+`**kwargs` as a record (entry key `kwargs` = a type of `spec.kwrecords`; named parameters with a constant default that the entry does
+not list are the keywords read from it: `beat=0` -> `kwargs.beat.getD 0`, `instrument=None` -> the field), calls that pass it on
+`callee(args, k=v, …, **kwargs)` to a method (`spec.kwmethods`) or to an object (`spec.callables`: a local, an attribute bound in
+`spec.attrs`, a constant subscript) with the duplicate-keyword TypeError (`FunTr.kwrecord_call`), `x.__class__(…)` on a declared
+class (`spec.class_ctor`), `~x` (`spec.unops`), `a <= b < c` on pure operands, `all(…)` / `any(…)` on a list comprehension or on a
+generator expression whose elements cannot raise, `isinstance(x, C)` on a declared sum type as a value (a `match`) and on a class
+the spec declares outside the sum (`spec.not_in_sum`: False), conditional expressions whose branches have different declared
+classes (joined by `spec.coercions`) or can raise (only the branch taken is evaluated), list displays of different declared
+classes (coerced to one of them), `{k: f(k) for k in d}` over a dict the spec declares (`spec.dict_key_iters`; the values may raise),
+`{k: v for k, v in pairs if v is not None}`, an Optional mapped into another Optional by `spec.coercions`.
+Equality / printed forms (group SrcEq): `a == b` / `a != b` on two values of one type whose `__eq__` the spec binds (`spec.eq`, the
+binding kind SrcExt uses for `in` / `index`), non-string pieces `{x}` of an f-string whose `str(x)` the spec binds per type
+(`spec.fstr`), `[e for a, b in pairs]` (a tuple target over a list of tuples, single generator).
+MIDI helpers (group SrcMidiUtil): `sum(xss, [])` on a list of lists (the concatenation, `List.flatten`).  The group SrcSpell needed no
+new construct: music21 constructors / attribute stores are `spec.methods` / `spec.store_templates` bindings on marker types, `str(int)`
+is a `spec.builtins` binding, `mode in SCALES` a `spec.binops` binding.
 Where the forks of the groups met (merges of SrcOrn, SrcDurOps, SrcExt, then of SrcConv, SrcBetween / SrcBetweenProject):
   * `/`: a `spec.binops` binding first (SrcDurOps: `Py.ratDiv`, SrcBetween: `PyB.ratDiv`), else the built-in reading (SrcOrn:
     `Py.fracDiv`, `x / 2` pure); bindings are looked up with the operand types as inferred, then with their type variables resolved;
@@ -62,6 +85,12 @@ Where the forks of the groups met (merges of SrcOrn, SrcDurOps, SrcExt, then of 
   * `assert`: SrcOrn's statement (a truthy binding for the test, the note on the message), plus SrcBetween's skip of a test decided by the types;
   * tree nodes: `matchsum` = SrcOrn's `if isinstance(x, C)` on a `spec.sums` type, `matchunion` = SrcDurOps's `UNIONS` value, `try` = SrcConv's;
   * plug-in groups translate against their own copy of the spec (translate_src.make), so bindings do not leak between groups.
+Third merge (SrcEuclid, SrcMask, SrcEq, SrcSpell / SrcMidiUtil): the four forks only met in this docstring and in the list of `Spec`
+fields (both sides kept).  Every addition sits on a path that raised `Untranslatable` before (two-sided slices, `enumerate` with the
+index read, `while`, closures; comparison chains, `all` / `any`, `isinstance` as a value, joined conditional branches, `**kwargs`
+records; `==` through `spec.eq` as the last case of `e_Compare`, `spec.fstr`, tuple targets of list comprehensions; `sum(xss, [])`),
+so no reading of an older group changes; a comparison chain of SrcMask goes link by link through `e_Compare` and so may use SrcEq's
+`spec.eq` case, `all(…)` / `any(…)` go through the list comprehension and so admit SrcEq's tuple targets.
 Typing is by a simple flow-sensitive inference from the parameter types given in the spec; an
 `if` duplicates the rest of the block into both branches, so every path is typed on its own.
 Python evaluation order is kept: every sub-expression that can raise is bound (`let t ← …`)
@@ -229,6 +258,15 @@ class Spec:
         self.dict_ops = {}                # 'set' / 'get' / 'update' -> template: Python dict operations on association lists
         self.option_unwrap = None         # template over {0}: `x.attr` on an Optional x (AttributeError on None), `Res T`
         self.iters = {}                   # type -> (template over {0}, list type): what `for x in v` iterates over
+        # --- binding kinds added for the group SrcMask (empty by default)
+        self.unops = {}                   # (type, ast unary operator name) -> (template over {0}, result type): `~x` (`__invert__`)
+        self.class_ctor = {}              # declared type of `x` -> constructor name of `spec.ctors`: `x.__class__(…)`
+        self.kwrecords = {}               # record type of a `**kwargs` parameter -> {keyword: (Lean field, field type `Option T`)}
+        self.kwmethods = {}               # (type, method, positional types…, '**T') -> (template over {0}=self,{1}..,{n}=kwargs, result type)
+        self.not_in_sum = set()           # (sum type, python class name): classes disjoint from the sum (`isinstance` is False)
+        self.dict_key_iters = {}          # dict type -> (template over {0} for the list of its keys, key type): `{k: f(k) for k in d}`
+        # --- binding kind added for the group SrcEq (empty by default)
+        self.fstr = {}                    # type -> template over {0}: `str(x)` of a non-string piece `{x}` of an f-string (no conversion, no format spec)
 
 
 class FunTr:
@@ -316,7 +354,15 @@ class FunTr:
             return '[]', f'List {m}'
         parts = [self.expr(x, env, B) for x in e.elts]
         if any(p[1] != parts[0][1] for p in parts):
-            raise Untranslatable('heterogeneous list')
+            # SrcMask: elements of different declared classes that the spec coerces to one of the element types (`[self, other]`)
+            for cand in [p[1] for p in parts]:
+                try:
+                    parts = [(self.coerce(t_, ty_, cand, 'list element'), cand) for t_, ty_ in parts]
+                    break
+                except Untranslatable:
+                    continue
+            else:
+                raise Untranslatable('heterogeneous list')
         return '[' + ', '.join(p[0] for p in parts) + ']', f'List {paren(lean_ty(parts[0][1]))}'
 
     def truth(self, t, ty):
@@ -380,6 +426,8 @@ class FunTr:
                 parts.append(json.dumps(v.value, ensure_ascii=True))
             elif isinstance(v, ast.FormattedValue) and v.conversion == -1 and v.format_spec is None:
                 t, ty = self.expr(v.value, env, B)
+                if lean_ty(ty) != 'String' and ty in self.spec.fstr:
+                    t, ty = self.spec.fstr[ty].format(t), 'Str'       # SrcEq: `{x}` is `str(x)`, bound per type in the spec
                 if lean_ty(ty) != 'String':
                     raise Untranslatable(f'f-string piece of type {ty}')
                 parts.append(t)
@@ -406,6 +454,9 @@ class FunTr:
             if t in ('true', 'false'):
                 return ('false' if t == 'true' else 'true'), 'Bool'
             return f'(!{t})', 'Bool'
+        if (ty, type(e.op).__name__) in self.spec.unops:          # SrcMask: `~mask`
+            tmpl, rty = self.spec.unops[(ty, type(e.op).__name__)]
+            return self.bind(B, tmpl.format(t), rty)
         raise Untranslatable(f'unary {type(e.op).__name__} on {ty}')
 
     def e_BoolOp(self, e, env, B):
@@ -476,6 +527,13 @@ class FunTr:
             return t
         if (Ba or Bb) and cty == 'Bool' and all(isinstance(m_, tuple) and m_[0] == 'pure' for _, m_ in Ba + Bb):
             a, b, Ba, Bb = inline(Ba, a), inline(Bb, b), [], []
+        if (Ba or Bb) and cty == 'Bool' and B is not None and c not in ('true', 'false'):
+            # SrcMask: a branch that can raise is evaluated only when it is taken (`f(x) if test else g(x)`)
+            a, b, aty = self.join_branches(a, aty, b, bty)
+
+            def seq(Bx, t):
+                return ' '.join([(f'let {n_} := {m_[1]};' if isinstance(m_, tuple) else f'let {n_} ← {m_};') for n_, m_ in Bx] + [f'pure {t}'])
+            return self.bind(B, f'(if {c} then (do {seq(Ba, a)}) else (do {seq(Bb, b)}))', 'Res ' + paren(aty))
         if Ba or Bb or cty != 'Bool':
             raise Untranslatable('conditional expression')
         if c == 'true':          # decided by the declared types (e.g. `x if x is not None else d` on a non-optional x)
@@ -483,8 +541,20 @@ class FunTr:
         if c == 'false':
             return b, bty
         if aty != bty:
-            raise Untranslatable('conditional expression')
+            a, b, aty = self.join_branches(a, aty, b, bty)      # SrcMask: `self if … else BoolMask(…)`
         return f'(if {c} then {a} else {b})', aty
+
+    def join_branches(self, a, aty, b, bty):
+        """the two values of a conditional expression at one type: equal types, or one side coerced to the other by a
+        conversion `coerce` admits (None / T into Optional[T], a declared class into the type the spec coerces it to)"""
+        if aty == bty:
+            return a, b, aty
+        for want in (bty, aty):
+            try:
+                return self.coerce(a, aty, want, 'conditional expression'), self.coerce(b, bty, want, 'conditional expression'), want
+            except Untranslatable:
+                continue
+        raise Untranslatable('conditional expression')
 
     def unify_list(self, a, b):
         """two list types, one of which may still have an unresolved element type"""
@@ -578,7 +648,18 @@ class FunTr:
 
     def e_Compare(self, e, env, B):
         if len(e.ops) != 1:
-            raise Untranslatable('comparison chain')
+            # `a <= b < c` = `a <= b and b < c` with `b` evaluated once; admitted when every operand is pure (so neither the
+            # single evaluation nor the short-circuit can be observed)
+            terms, left = [], e.left
+            for op_, right_ in zip(e.ops, e.comparators):
+                one = ast.Compare(left=left, ops=[op_], comparators=[right_])
+                ast.copy_location(one, e)
+                t_, ty_ = self.expr(one, env, None)
+                if ty_ != 'Bool':
+                    raise Untranslatable('comparison chain')
+                terms.append(t_)
+                left = right_
+            return '(' + ' && '.join(terms) + ')', 'Bool'
         op = type(e.ops[0]).__name__
         right = e.comparators[0]
         if op in ('Is', 'IsNot') and isinstance(right, ast.Constant) and right.value is None:
@@ -644,6 +725,11 @@ class FunTr:
             return f'({a}.map (fun ({v} : Int) => decide ({v} {self.CMP[op]} {b})))', 'NpBool'
         if aty == bty and aty in ('Mode', 'Str', 'Bool', 'Option Mode', 'Option Acc', 'Kind', 'Rat') and op in ('Eq', 'NotEq'):
             return f'(decide ({a} {self.CMP[op]} {b}))', 'Bool'
+        if aty == bty and op in ('Eq', 'NotEq') and aty in self.spec.eq:
+            # SrcEq: `a == b` on a type whose `__eq__` the spec binds (`a.__eq__(b)`: {0} = self, {1} = other); `!=` is its negation
+            # (none of the bound classes defines `__ne__`)
+            r = self.spec.eq[aty].format(a, b)
+            return (r if op == 'Eq' else f'(!{r})'), 'Bool'
         raise Untranslatable(f'{aty} {op} {bty} at line {e.lineno}')
 
     def e_Subscript(self, e, env, B):
@@ -677,6 +763,13 @@ class FunTr:
                 if isinstance(s.step, ast.UnaryOp) and isinstance(s.step.op, ast.USub) and \
                         isinstance(s.step.operand, ast.Constant) and s.step.operand.value == 1:
                     return f'({v}.reverse)', vty       # `l[::-1]`
+            if s.step is None and vty == 'List Int' and s.lower is not None and s.upper is not None:
+                # `l[a:b]` (SrcEuclid; `Py.slice` of MV.Model.PyEuclid): both bounds normalised and clamped as CPython does
+                lo, loty = self.expr(s.lower, env, B)
+                hi, hity = self.expr(s.upper, env, B)
+                if loty != 'Int' or hity != 'Int':
+                    raise Untranslatable('slice bound')
+                return f'(Py.slice {v} {lo} {hi})', 'List Int'
             if s.step is not None or vty != 'List Int' or (s.lower is None) == (s.upper is None):
                 raise Untranslatable('slice form')
             if s.lower is not None:
@@ -879,8 +972,81 @@ class FunTr:
                 return tmpl, rty, dropped
         return None
 
+    def kwrecord_call(self, e, env, B):
+        """SrcMask: a call that passes a `**kwargs` record on, `callee(args, k1=v1, …, **kwargs)`, where `kwargs` is a local of a
+        record type the spec declares (`spec.kwrecords[T] = dict(fields={keyword: (Lean field, 'Option X')}, distinct=template)`).
+        Python evaluates the callee, the positional arguments, then the keyword values in the order written; a keyword given
+        explicitly that is also a key of the dict is a TypeError (`distinct`, checked on the record's fields: a key that is
+        present with the value None cannot be told from an absent one).  Keywords that are not fields of the record are
+        parameters of the callee and belong to the binding's signature (`name=Type`).  The callee is
+          * a method bound in `spec.kwmethods[(type, method, positional types…, 'name=Type'…, '**T')]`,
+          * or an object — a local name, an attribute bound in `spec.attrs`, a constant subscript — whose call the spec binds in
+            `spec.callables[(type, (positional types…, 'name=Type'…, '**T'))]`.
+        Arguments are coerced to the declared types (an exact match of the argument types wins).  None when the call has no
+        such `**` argument."""
+        stars = [kw for kw in e.keywords if kw.arg is None]
+        if len(stars) != 1 or not isinstance(stars[0].value, ast.Name) or env.get(stars[0].value.id) not in self.spec.kwrecords:
+            return None
+        rty = env[stars[0].value.id]
+        R = self.spec.kwrecords[rty]
+        fn = e.func
+        if B is None:
+            raise Untranslatable(f'call with **{stars[0].value.id} inside a pure context')
+        method = None
+        if isinstance(fn, ast.Attribute):
+            v, vty = self.expr(fn.value, env, B)
+            if any(k_[0] == vty and k_[1] == fn.attr for k_ in self.spec.kwmethods):
+                method = fn.attr
+            elif (vty, fn.attr) in self.spec.attrs:
+                tmpl, aty = self.spec.attrs[(vty, fn.attr)]
+                v, vty = self.bind(B, tmpl.format(v), aty)          # a callable attribute: `self.other(…)`
+            else:
+                raise Untranslatable(f'method {vty}.{fn.attr} with **{stars[0].value.id} at line {e.lineno}')
+        else:
+            v, vty = self.expr(fn, env, B)
+        args = [self.expr(a, env, B) for a in e.args]
+        extra, updates, d = [], [], None
+        for kw in e.keywords:
+            t, ty = self.expr(kw.value, env, B)
+            if kw.arg is None:
+                d = t
+            elif kw.arg in R['fields']:
+                updates.append((kw.arg, t, ty))
+            else:
+                extra.append((kw.arg, t, ty))
+        if updates:
+            B.append((self.fresh(), R['distinct'].format(', '.join(f'{d}.{R["fields"][k_][0]}.isSome' for k_, _, _ in updates))))
+            d = '{ ' + d + ' with ' + ', '.join(f'{R["fields"][k_][0]} := {self.coerce(t_, ty_, R["fields"][k_][1], "keyword " + k_)}'
+                                                for k_, t_, ty_ in updates) + ' }'
+        given = list(args) + [(t_, ty_) for _, t_, ty_ in extra]
+        names = [None] * len(args) + [k_ for k_, _, _ in extra]
+        if method is not None:
+            cands = [(k_[2:], b_) for k_, b_ in self.spec.kwmethods.items() if k_[0] == vty and k_[1] == method]
+        else:
+            cands = [(k_[1], b_[:2]) for k_, b_ in self.spec.callables.items() if k_[0] == vty]
+        cands = [(sig, b_) for sig, b_ in cands if len(sig) == len(given) + 1 and sig[-1] == '**' + rty
+                 and all((n_ is None and '=' not in s_) or (n_ is not None and s_.startswith(n_ + '=')) for n_, s_ in zip(names, sig))]
+        want = lambda s_: s_.split('=', 1)[1] if '=' in s_ else s_
+        cands.sort(key=lambda c_: [want(s_) != ty_ for s_, (_, ty_) in zip(c_[0], given)])       # exact matches first (stable)
+        for sig, (tmpl, res) in cands:
+            try:
+                ts = [self.coerce(t_, ty_, want(s_), f'argument of {ast.unparse(fn)}') for s_, (t_, ty_) in zip(sig, given)]
+            except Untranslatable:
+                continue
+            return self.bind(B, tmpl.format(v, *[paren(t_) for t_ in ts], paren(d) if d.startswith('{') else d), res)
+        raise Untranslatable(f'call of {ast.unparse(fn)} ({vty}) on {[ty_ for _, ty_ in given]} with **{rty} at line {e.lineno}')
+
     def e_Call(self, e, env, B):
         fn = e.func
+        if self.spec.kwrecords:
+            r = self.kwrecord_call(e, env, B)
+            if r is not None:
+                return r
+        if isinstance(fn, ast.Attribute) and fn.attr == '__class__' and isinstance(fn.value, ast.Name) \
+                and env.get(fn.value.id) in self.spec.class_ctor:
+            # SrcMask: `self.__class__(…)` builds an instance of the declared class of `self`
+            self.assumed.append(f'line {e.lineno}: `{fn.value.id}.__class__` is the declared class {env[fn.value.id]} (not a subclass)')
+            return self.ctor(self.spec.class_ctor[env[fn.value.id]], e, env, B)
         if isinstance(fn, ast.Name) and fn.id in env and (env[fn.id] in self.spec.call_objects or any(
                 k_[0] == env[fn.id] for k_ in list(self.spec.callables) + list(self.spec.kwcalls))):
             # `obj(args, **d, kw=…)` on an object whose `__call__` the spec binds
@@ -967,6 +1133,12 @@ class FunTr:
                     raise Untranslatable(f'sum({ty}, None): accumulator {aty} / {aty1} at line {e.lineno}')
                 return (f'(match {t} with | [] => none | {x0} :: {xs} => some ({xs}.foldl '
                         f'(fun ({acc} : {lean_ty(aty)}) ({x} : {lean_ty(ety)}) => {r1}) {r0}))'), f'Option {aty}'
+            if n == 'sum' and len(e.args) == 2 and isinstance(e.args[1], ast.List) and not e.args[1].elts and 'sum' not in env:
+                # `sum(xss, [])` on a list of lists (SrcMidiUtil): `[] + xs0 + xs1 + …`, the concatenation
+                t, ty = self.expr(e.args[0], env, B)
+                if not (ty.startswith('List ') and elem_ty(ty).startswith('List ')):
+                    raise Untranslatable(f'sum({ty}, [])')
+                return f'({t}.flatten)', elem_ty(ty)
             if n in ('sum', 'max') and len(e.args) == 1:
                 t, ty = self.expr(e.args[0], env, B)
                 if not is_list(ty) or elem_ty(ty) not in ('Rat', 'Int'):
@@ -976,6 +1148,25 @@ class FunTr:
                     # Python's sum starts from the int 0; as a Fraction that is the same number
                     return (f'(sumRat {t})' if et == 'Rat' else f'(Py.sum {t})'), et
                 return self.bind(B, (f'Py.maxRat {t}' if et == 'Rat' else f'Py.maxInt {t}'), f'Res {et}')
+            if n in ('all', 'any') and n not in env and len(e.args) == 1 and not e.keywords:
+                # SrcMask: `all(xs)` / `any(xs)` on a list of bools, a list comprehension (evaluated completely first) or a
+                # generator expression (lazy: admitted only when its elements cannot raise, then the short-circuit is unobservable)
+                a = e.args[0]
+                lazy = isinstance(a, ast.GeneratorExp)
+                if lazy:
+                    a = ast.ListComp(elt=a.elt, generators=a.generators)
+                    ast.copy_location(a, e.args[0])
+                Bl = []
+                t, ty = self.expr(a, env, Bl)
+                if lazy and any(not isinstance(m_, tuple) and ('.mapM (' in m_ or '.filterM (' in m_) for _, m_ in Bl):
+                    raise Untranslatable(f'{n}(generator) whose elements can raise, at line {e.lineno}')
+                if Bl and B is None:
+                    raise Untranslatable(f'{n}(…) that can raise inside a pure context')
+                if Bl:
+                    B.extend(Bl)
+                if lean_ty(ty) != 'List Bool':
+                    raise Untranslatable(f'{n}({ty})')
+                return f'({t}.{n} (fun b => b))', 'Bool'
             if n == 'abs' and len(e.args) == 1:
                 t, ty = self.expr(e.args[0], env, B)
                 if ty != 'Int':
@@ -995,6 +1186,13 @@ class FunTr:
             if n == 'isinstance' and len(e.args) == 2:
                 t, ty = self.expr(e.args[0], env, B)
                 cls = ast.unparse(e.args[1])
+                if ty in self.spec.sums and cls in self.spec.sums[ty] and self.spec.sums[ty][cls][0].count('{0}') == 1:
+                    # SrcMask: as a value, `isinstance(x, C)` on a declared sum type is a `match` on the constructor of C
+                    return f'(match {t} with | {self.spec.sums[ty][cls][0].format("_")} => true | _ => false)', 'Bool'
+                if (ty, cls) in self.spec.not_in_sum:
+                    # SrcMask: a class the spec declares disjoint from every alternative of the sum (`isinstance(element, list)`)
+                    self.assumed.append(f'line {e.lineno}: isinstance({ast.unparse(e.args[0])}, {cls}) is False on the declared sum type {ty}')
+                    return 'false', 'Bool'
                 if ty in self.spec.sums:
                     # decided at run time; admitted only as the test of an `if` (see `block`), where it becomes a `match`
                     raise Untranslatable(f'isinstance on the sum type {ty} outside the test of an if, at line {e.lineno}')
@@ -1154,8 +1352,33 @@ class FunTr:
         env2 = dict(env)
         iters = []
         for g in gens:
+            if isinstance(g.target, ast.Tuple) and not g.is_async and len(gens) == 1 and len(g.target.elts) >= 2 \
+                    and all(isinstance(x_, ast.Name) for x_ in g.target.elts) \
+                    and len({x_.id for x_ in g.target.elts}) == len(g.target.elts):
+                # SrcEq: `[e for a, b in pairs]` over a list of tuples: one bound variable, the names are its components
+                it, ity = self.expr(g.iter, env2, B)
+                comps = split_prod(elem_ty(ity)) if is_list(ity) else []
+                if len(comps) != len(g.target.elts):
+                    raise Untranslatable(f'comprehension target over {ity}')
+                pv = self.fresh('kv')
+                sub = dict(env2.get('__subst__', {}))
+                for i_, (x_, cty_) in enumerate(zip(g.target.elts, comps)):
+                    env2[x_.id] = {'String': 'Str'}.get(cty_, cty_)
+                    sub[x_.id] = f'{pv}{tuple_proj(len(comps), i_)}'
+                env2['__subst__'] = sub
+                conds = []
+                for c in g.ifs:
+                    ct, cty = self.expr(c, env2, None)
+                    if cty != 'Bool':
+                        raise Untranslatable('comprehension filter')
+                    conds.append(ct)
+                pty = ' × '.join(paren(lean_ty(c_)) if ' × ' in lean_ty(c_) else lean_ty(c_) for c_ in comps)
+                iters.append((pv + ' : ' + pty, it, conds, pv))
+                continue
             if not isinstance(g.target, ast.Name) or g.is_async:
                 raise Untranslatable('comprehension target')
+            if g.target.id in env2.get('__subst__', {}):
+                raise Untranslatable(f'comprehension target `{g.target.id}` shadows a component of an enclosing tuple target')
             # the first iterable is evaluated in the enclosing scope and may raise; the others are per element
             it, ity = self.expr(g.iter, env2, B if g is gens[0] else None)
             if not is_list(ity):
@@ -1222,6 +1445,27 @@ class FunTr:
         if len(e.generators) != 1:
             raise Untranslatable('dict comprehension with several generators')
         g = e.generators[0]
+        if isinstance(g.target, ast.Name) and self.spec.dict_key_iters and not g.ifs and not g.is_async \
+                and isinstance(e.key, ast.Name) and e.key.id == g.target.id:
+            # SrcMask: `{k: f(k) for k in d}` over a dict the spec declares (`spec.dict_key_iters`): iterating a dict gives its keys,
+            # each once, so the result is the association list of the same keys in the same order; the values are computed
+            # key after key and may raise
+            it, ity = self.expr(g.iter, env, B)
+            if ity not in self.spec.dict_key_iters:
+                raise Untranslatable(f'dict comprehension over {ity}')
+            tmpl, kty = self.spec.dict_key_iters[ity]
+            x = ident(g.target.id)
+            Be = []
+            val, vty = self.expr(e.value, {**env, g.target.id: kty}, Be)
+            if any(isinstance(m, tuple) for _, m in Be):
+                raise Untranslatable('copy inside a dict comprehension')
+            rty = f'Dict {kty} {paren(vty)}'
+            if Be:
+                if B is None:
+                    raise Untranslatable('a dict comprehension that can raise inside a pure context')
+                body = ' '.join(f'let {n} ← {m};' for n, m in Be) + f' pure ({x}, {val})'
+                return self.bind(B, f'({tmpl.format(it)}).mapM (fun ({x} : {lean_ty(kty)}) => do {body})', 'Res ' + paren(rty))
+            return f'(({tmpl.format(it)}).map (fun ({x} : {lean_ty(kty)}) => ({x}, {val})))', rty
         if isinstance(g.target, ast.Name):
             if g.ifs or g.is_async or not (isinstance(e.key, ast.Name) and e.key.id == g.target.id) or 'set' not in self.spec.dict_ops:
                 raise Untranslatable('dict comprehension form')
@@ -1267,6 +1511,13 @@ class FunTr:
             raise Untranslatable(f'dict comprehension over {ity}')
         env2 = {**env, kn: comps[0], vn: comps[1]}
         kv = self.fresh('kv')
+        if len(g.ifs) == 1 and comps[1].startswith('Option ') and self.none_test(g.ifs[0], env2) == (vn, False) \
+                and isinstance(e.value, ast.Name) and e.value.id == vn:
+            # SrcMask: `{k: v for k, v in pairs if v is not None}`: the entries whose value is not None, in order, un-wrapped
+            inner = comps[1][7:].strip()
+            inner = inner[1:-1] if inner.startswith('(') and inner.endswith(')') else inner
+            return (f'(({it}).filterMap (fun ({kv} : {lean_ty(comps[0])} × {lean_ty(comps[1])}) => '
+                    f'match {kv}.2 with | some v => some ({kv}.1, v) | none => none))'), f'Dict {comps[0]} {paren(inner)}'
         for c in g.ifs:
             ct, cty = self.expr(c, env2, None)
             if ct != 'true':
@@ -1302,6 +1553,8 @@ class FunTr:
         if is_list(ty) and is_list(want) and ('⟦' in ty or '⟦' in want):
             self.unify_list(ty, want)
             return t
+        if want.startswith('Option ') and (ty, want) in self.spec.coercions:
+            return self.spec.coercions[(ty, want)].format(t)          # SrcMask: an Optional mapped into another Optional
         if want.startswith('Option '):
             if ty == 'None':
                 return 'none'
@@ -1366,29 +1619,154 @@ class FunTr:
         return None
 
     def local_function(self, s):
-        """a `def` inside the function (no closure: only its own parameters and spec globals), possibly recursive.
-        Emitted as a Lean definition by structural recursion on `rec_fuel`; running out of fuel is Python's RecursionError."""
+        """a `def` inside the function, possibly recursive.  Emitted as a Lean definition by structural recursion on `rec_fuel`;
+        running out of fuel is Python's RecursionError.  Without the keys below it is closed (only its own parameters and spec
+        globals).  SrcEuclid: `captures=[(name, type)]` are variables of the enclosing function it reads, `mutates=[(name, type)]`
+        lists of the enclosing function it appends to (and only appends to; it returns nothing): both become leading parameters,
+        the mutated lists are the result; such a function is called as a statement (`FunTr.closure_call`)."""
         nd = self.nested[s.name]
+        caps, muts = list(nd.get('captures', ())), list(nd.get('mutates', ()))
+        all_params = caps + muts + list(nd['params'])
         if [a.arg for a in s.args.args] != [p[0] for p in nd['params']] or s.args.vararg or s.args.kwarg or s.args.defaults:
             raise Untranslatable(f'local function {s.name}: parameters')
-        if any(p[0] == 'rec_fuel' for p in nd['params']):
+        if any(p[0] == 'rec_fuel' for p in all_params):
             raise Untranslatable('a parameter named rec_fuel')
-        sub = FunTr(self.spec, nd['lean'], nd['params'], nd['ret'])
+        ret = nd['ret']
+        if caps or muts:
+            if len({p[0] for p in all_params}) != len(all_params) or nd['ret'] != 'None':
+                raise Untranslatable(f'local function {s.name}: captured names / result')
+            shared = {p[0] for p in caps + muts}
+            for node in ast.walk(s):
+                # a closure may read the captured variables and `append` to the mutated ones; re-binding one would make it a
+                # local of the inner function in Python, and a `return` would end the call early
+                tg = (node.targets if isinstance(node, ast.Assign) else [node.target] if isinstance(node, (ast.AugAssign, ast.For, ast.NamedExpr))
+                      else [])
+                if any(isinstance(x_, ast.Name) and x_.id in shared for t_ in tg for x_ in ast.walk(t_)) \
+                        or isinstance(node, (ast.Return, ast.Global, ast.Nonlocal, ast.Lambda)) \
+                        or (isinstance(node, ast.FunctionDef) and node is not s):
+                    raise Untranslatable(f'local function {s.name}: statement at line {node.lineno}')
+            if muts:
+                ret = ' × '.join(paren(lean_ty(t_)) if ' × ' in lean_ty(t_) else lean_ty(t_) for _, t_ in muts)
+        sub = FunTr(self.spec, nd['lean'], all_params, ret)
         if self.fuel_name not in (None, 'rec_fuel'):
             raise Untranslatable(f'local function {s.name} inside a function whose depth bound is called {self.fuel_name}')
         sub.copy_template, sub.fold_literals, sub.has_fuel = self.copy_template, self.fold_literals, True
         sub.fuel_name = self.fuel_name = 'rec_fuel'
         sub.typed_ops, sub.join_ifs = self.typed_ops, self.join_ifs
+        sub.is_local = True
         self.has_fuel = True
-        self.spec.funs[s.name] = dict(lean=nd['lean'], params=nd['params'], ret=nd['ret'], pure=False, fuel=True, local=True)
-        tree = sub.block(list(s.body), {p_: t_ for p_, t_ in nd['params']})
-        sig = ' '.join(f'({ident(p_)} : {lean_ty(t_)})' for p_, t_ in nd['params'])
-        rt = lean_ty(nd['ret'])
+        self.spec.funs[s.name] = dict(lean=nd['lean'], params=all_params, ret=ret, pure=False, fuel=True, local=True,
+                                      **({'closure': (caps, muts)} if caps or muts else {}))
+        env0 = {p_: t_ for p_, t_ in all_params}
+        k0 = None
+        if muts:
+            env0['__fresh__'] = frozenset(ident(p_) for p_, _ in muts)      # the caller hands them over (checked at the call)
+            k0 = lambda env_: ('ret', '(' + ', '.join(ident(p_) for p_, _ in muts) + ')' if len(muts) != 1 else ident(muts[0][0]))
+        tree = sub.block(list(s.body), env0, k0)
+        sig = ' '.join(f'({ident(p_)} : {lean_ty(t_)})' for p_, t_ in all_params)
+        rt = lean_ty(ret)
         lines = [f'/-- local function `{s.name}` of `{self.name}`; `rec_fuel` bounds the recursion depth (RecursionError) -/',
                  f'def {nd["lean"]} (rec_fuel : Nat) {sig} : Res {paren(rt)} :=',
                  '  match rec_fuel with', '  | 0 => throw Err.other', '  | rec_fuel + 1 => do'] + render(tree, 4, True)
         self.nested_defs.append(('\n'.join(lines), sub))
         self.assumed += sub.assumed
+
+    def closure_call(self, s, rest, env, k):
+        """`f(args)` as a statement, `f` a local function that reads / appends to variables of the enclosing function (SrcEuclid, see
+        `local_function`): the variables are passed as they are at the call (a closure sees their current value), the lists it
+        appends to come back as the result and are re-bound; they must be lists no other name refers to"""
+        name = s.value.func.id
+        caps, muts = self.spec.funs[name]['closure']
+        for n, _ in caps + muts:
+            if n not in env or n in self.consts or n in env.get('__subst__', {}):
+                raise Untranslatable(f'{name} at line {s.lineno}: its variable `{n}` is not a plain local here')
+        for n, _ in muts:
+            if ident(n) not in self.fresh_vars(env):
+                raise Untranslatable(f'{name} appends to `{n}`, which may alias an operand, at line {s.lineno}')
+        B = []
+        args = [(ident(n), env[n]) for n, _ in caps + muts] + [self.expr(a, env, B) for a in s.value.args]
+        r, _ = self.call_fun(name, args, B)
+        env2 = self.drop_const(env, [n for n, _ in muts])
+        for n, t in muts:
+            env2[n] = t
+        node = self.block(rest, env2, k)
+        for i in reversed(range(len(muts))):
+            node = ('let', ident(muts[i][0]), lean_ty(muts[i][1]), f'{r}{tuple_proj(len(muts), i)}', node)
+        return self.wrap(B, node)
+
+    def while_loop(self, s, rest, env, k):
+        """`while TEST: BODY` (SrcEuclid): a separate definition `<f>_loop<n>` by structural recursion on the bound `rec_fuel`, one
+        unit per iteration; running out raises Err.other where Python would go on looping (the tie theorem states a bound that
+        suffices).  Its arguments are the variables the loop reads and does not assign, then the ones it assigns (the state); it
+        returns the state at the exit (`break`, or TEST false).  `continue` and the end of BODY are the recursive call."""
+        if self.fuel_name not in (None, 'rec_fuel') or getattr(self, 'is_local', False):
+            raise Untranslatable(f'while loop at line {s.lineno}: inside a local function / a function with the depth bound {self.fuel_name}')
+        self.has_fuel, self.fuel_name = True, 'rec_fuel'
+        svars = [n for n in self.assigned_names(s.body) if n in env]
+        if not svars:
+            raise Untranslatable(f'while loop without loop-carried variables at line {s.lineno}')
+        reads = []
+        for nd in sorted([x for x in ast.walk(s) if isinstance(x, ast.Name)], key=lambda x: (x.lineno, x.col_offset)):
+            if isinstance(nd.ctx, ast.Load) and nd.id in env and nd.id not in svars and nd.id not in reads:
+                reads.append(nd.id)
+        if any(n in self.consts or n in env.get('__subst__', {}) for n in reads + svars):
+            raise Untranslatable(f'while loop at line {s.lineno} over a fixed parameter')
+        self.loop_count = getattr(self, 'loop_count', 0) + 1
+        lname = f'{self.name}_loop{self.loop_count}'
+        env0 = self.drop_const(env, svars)
+        stys = [env0[n] for n in svars]
+        exits = []
+
+        def arg(t):
+            return t if t.startswith('(') or t.isidentifier() else f'({t})'
+
+        def tup(parts):
+            return '(' + ', '.join(parts) + ')' if len(parts) != 1 else parts[0]
+
+        def k_iter(env_):
+            parts = []
+            for n, t0 in zip(svars, stys):
+                t1 = env_[n]
+                if is_list(t0) and is_list(t1):
+                    self.unify_list(t0, t1)
+                    parts.append(ident(n))
+                else:
+                    parts.append(self.coerce(ident(n), t1, t0, f'loop variable {n}'))
+            exits.append(env_)
+            if env_.get('__break__'):
+                return ('ret', tup(parts))
+            r = self.fresh()
+            return ('bind', r, ' '.join([lname, 'rec_fuel'] + [ident(n) for n in reads] + [arg(p_) for p_ in parts]), ('ret', r))
+        self.in_loop += 1
+        try:
+            B = []
+            c, cty = self.truth(*self.expr(s.test, env0, B))
+            if cty != 'Bool' or c == 'false':
+                raise Untranslatable(f'while test of type {cty} at line {s.lineno}')
+            body = self.block(list(s.body), env0, k_iter)
+            if c != 'true':
+                exits.append(env0)
+                body = ('if', c, body, ('ret', tup([ident(n) for n in svars])))
+            tree = self.wrap(B, body)
+        finally:
+            self.in_loop -= 1
+        for n in svars:
+            if ident(n) in self.fresh_vars(env0) and any(ident(n) not in self.fresh_vars(e_) for e_ in exits):
+                raise Untranslatable(f'the while loop at line {s.lineno} may leave `{n}` aliased')
+        sig = ' '.join([f'({ident(n)} : {lean_ty(env0[n])})' for n in reads] + [f'({ident(n)} : {lean_ty(t_)})' for n, t_ in zip(svars, stys)])
+        sty = ' × '.join(paren(lean_ty(t_)) if ' × ' in lean_ty(t_) else lean_ty(t_) for t_ in stys)
+        lines = [f'/-- `while` loop {self.loop_count} of `{self.name}`; `rec_fuel` bounds the number of iterations (exhausted: Err.other) -/',
+                 f'def {lname} (rec_fuel : Nat) {sig} : Res {paren(sty)} :=',
+                 '  match rec_fuel with', '  | 0 => throw Err.other', '  | rec_fuel + 1 => do'] + render(tree, 4, True)
+        self.nested_defs.append(('\n'.join(lines), self))
+        st = self.fresh('st')
+        env2 = dict(env0)
+        for n, t_ in zip(svars, stys):
+            env2[n] = self.resolve(t_)
+        node = self.block(rest, env2, k)
+        for i in reversed(range(len(svars))):
+            node = ('let', ident(svars[i]), lean_ty(stys[i]), f'{st}{tuple_proj(len(svars), i)}', node)
+        return ('bind', st, ' '.join([lname, 'rec_fuel'] + [ident(n) for n in reads + svars]), node)
 
     @staticmethod
     def drop_const(env, names):
@@ -1434,6 +1812,10 @@ class FunTr:
                 elif isinstance(node, ast.Call) and isinstance(node.func, ast.Attribute) \
                         and node.func.attr in ('append', 'insert', 'pop') and isinstance(node.func.value, ast.Name):
                     add(node.func.value.id)
+                elif isinstance(node, ast.Call) and isinstance(node.func, ast.Name) \
+                        and self.spec.funs.get(node.func.id, {}).get('closure'):
+                    for n_, _ in self.spec.funs[node.func.id]['closure'][1]:
+                        add(n_)                                # a local function that appends to lists of this function (SrcEuclid)
         return out
 
     def none_test(self, test, env):
@@ -1443,6 +1825,27 @@ class FunTr:
                 and test.comparators[0].value is None and env.get(test.left.id, '').startswith('Option '):
             return test.left.id, isinstance(test.ops[0], ast.Is)
         return None
+
+    def enumerate_target(self, s, rest, env):
+        """the target names, flattened, of `for i, T in enumerate(v)` where the older reading (T a name, the index never read: the
+        index is dropped) does not apply: the index is read, or T is itself a tuple of names.  None for any other loop."""
+        t = s.target
+        if not (isinstance(t, ast.Tuple) and len(t.elts) == 2 and isinstance(t.elts[0], ast.Name) and isinstance(s.iter, ast.Call)
+                and isinstance(s.iter.func, ast.Name) and s.iter.func.id == 'enumerate' and 'enumerate' not in env
+                and len(s.iter.args) == 1 and not s.iter.keywords):
+            return None
+        second = t.elts[1]
+        if isinstance(second, ast.Name):
+            inner = [second]
+        elif isinstance(second, ast.Tuple) and all(isinstance(x_, ast.Name) for x_ in second.elts):
+            inner = list(second.elts)
+        else:
+            return None
+        idx = t.elts[0].id
+        used = any(isinstance(x_, ast.Name) and x_.id == idx for st_ in list(s.body) + rest for x_ in ast.walk(st_))
+        if not used and isinstance(second, ast.Name):
+            return None
+        return [t.elts[0]] + inner
 
     def sum_test(self, test, env):
         """`isinstance(x, C)` / `not isinstance(x, C)` on a local of a declared sum type -> (name, class, True if positive)"""
@@ -1907,6 +2310,21 @@ class FunTr:
             if c == 'false':
                 return self.wrap(B, self.block(list(s.orelse) + rest, env, k))
             return self.wrap(B, ('if', c, self.block(list(s.body) + rest, env, k), self.block(list(s.orelse) + rest, env, k)))
+        if isinstance(s, ast.For) and not s.orelse and self.enumerate_target(s, rest, env) is not None:
+            # `for i, x in enumerate(v)` with the index read, `for i, (a, b) in enumerate(pairs)` (SrcEuclid): a loop over the list
+            # of pairs (index, element), `Py.enumerate` of MV.Model.PyEuclid; the nested target `i, (a, b)` is the right-nested
+            # Lean triple, so the names are unpacked from one tuple
+            names = self.enumerate_target(s, rest, env)
+            B = []
+            it, ity = self.expr(s.iter.args[0], env, B)
+            if not is_list(ity):
+                raise Untranslatable(f'enumerate over {ity} at line {s.lineno}')
+            en = self.fresh('en') + "'"          # hidden name (not a Python identifier)
+            s2 = ast.For(target=ast.Tuple(elts=names, ctx=ast.Store()), iter=ast.Name(id=en, ctx=ast.Load()), body=s.body, orelse=[])
+            ast.copy_location(s2, s)
+            ast.fix_missing_locations(s2)
+            node = self.block([s2] + rest, {**env, en: f'List (Int × {lean_ty(elem_ty(ity))})'}, k)
+            return self.wrap(B, ('let', en, None, f'(Py.enumerate {it})', node))
         if isinstance(s, ast.For) and not s.orelse and isinstance(s.target, ast.Tuple) and len(s.target.elts) == 2 \
                 and all(isinstance(x_, ast.Name) for x_ in s.target.elts) and isinstance(s.iter, ast.Call) \
                 and isinstance(s.iter.func, ast.Name) and s.iter.func.id == 'enumerate' and 'enumerate' not in env \
@@ -2007,6 +2425,11 @@ class FunTr:
             for n in reversed([n for n in pre if isinstance(n, tuple)]):      # the `none`s first, then the promotions (as SrcBetween wrote them)
                 node = ('let', ident(n[0]), lean_ty(n[1]), 'none', node)
             return self.wrap(B, node)
+        if isinstance(s, ast.While) and not s.orelse and not self.in_loop:
+            return self.while_loop(s, rest, env, k)
+        if isinstance(s, ast.Expr) and isinstance(s.value, ast.Call) and isinstance(s.value.func, ast.Name) \
+                and s.value.func.id not in env and self.spec.funs.get(s.value.func.id, {}).get('closure') and not s.value.keywords:
+            return self.closure_call(s, rest, env, k)
         if isinstance(s, ast.Try) and len(s.handlers) == 1 and not s.orelse and not s.finalbody and not self.in_loop \
                 and (s.handlers[0].type is None or (isinstance(s.handlers[0].type, ast.Name) and s.handlers[0].type.id == 'Exception')) \
                 and s.handlers[0].name is None:
@@ -2167,6 +2590,13 @@ def translate_function(spec, entry):
     fd, src = get_source_ast(entry['py'])
     argnames = [a.arg for a in fd.args.args]
     params = entry['params']
+    if entry.get('kwargs'):
+        # SrcMask: the `**kwargs` parameter is a record (entry key `kwargs` = its type in `spec.kwrecords`) and the last Lean
+        # parameter; named parameters of the `def` that the entry does not list are keywords read from it (`_translate_function`)
+        if fd.args.kwarg is None or entry['kwargs'] not in spec.kwrecords:
+            raise Untranslatable(f'{entry["py"]}: no **kwargs parameter / no record type {entry["kwargs"]}')
+        listed = [p[0] for p in params]
+        argnames = [a for a in argnames if a in listed or a not in spec.kwrecords[entry['kwargs']]['fields']] + [fd.args.kwarg.arg]
     if argnames != [p[0] for p in params]:
         # defaults are allowed only when the spec fixes them
         fixed = entry.get('fixed', {})
@@ -2226,6 +2656,30 @@ def _translate_function(spec, entry, tr, fd, params):
         if tr.coerce(t_, ty_, pty, f'default of {k}') != term:
             raise Untranslatable(f'{entry["py"]}: default of {k} is {ast.unparse(src_defaults[k])}, spec {term}')
         defaults[k] = (term, pty)
+    kwlets = []
+    if entry.get('kwargs'):
+        # `def f(self, x, beat=0, **kwargs)` called as `f(x, **kw)`: `beat` is `kw['beat']` when the key is there, else the default.
+        # On the record the key is a field of type `Option T`: a default `None` reads the field as it is, another constant
+        # default `d` reads `field.getD d` (a key that is present with the value None is not told from an absent one).
+        R = spec.kwrecords[entry['kwargs']]
+        kwname = fd.args.kwarg.arg
+        for a_ in [a_ for a_ in argnames if a_ not in env and a_ in R['fields']]:
+            d_ = src_defaults.get(a_)
+            if not isinstance(d_, ast.Constant):
+                raise Untranslatable(f'{entry["py"]}: keyword parameter {a_} without a constant default')
+            lf, fty = R['fields'][a_]
+            if d_.value is None:
+                env[a_], term = fty, f'{ident(kwname)}.{lf}'
+            else:
+                inner = fty[7:].strip()
+                inner = inner[1:-1] if inner.startswith('(') and inner.endswith(')') else inner
+                dt, dty = tr.e_Constant(d_, {}, None)
+                env[a_], term = inner, f'({ident(kwname)}.{lf}.getD {tr.coerce(dt, dty, inner, "default of " + a_)})'
+                tr.assumed.append(f'keyword `{a_}`: absent -> the default {ast.unparse(d_)}; it is never passed as None')
+            kwlets.append((a_, env[a_], term))
+        if kwlets and any(isinstance(x_, ast.Name) and x_.id == kwname for st_ in fd.body for x_ in ast.walk(st_)):
+            # the dict the body sees no longer holds the keywords bound to named parameters; the record still does
+            raise Untranslatable(f'{entry["py"]}: uses **{kwname} and reads named keywords from it')
     if entry.get('recursive'):
         # the function calls itself: the Lean definition recurses on a fuel argument (Python: the recursion limit)
         spec.funs[entry['name']] = {'lean': entry['lean'], 'params': params, 'ret': entry['ret'], 'pure': False,
@@ -2253,6 +2707,8 @@ def _translate_function(spec, entry, tr, fd, params):
             spec.funs.pop(entry['name'], None)
     for k, (term, ty) in reversed(list(entry.get('fixed', {}).items())):
         tree = ('let', ident(k), lean_ty(ty), term, tree)
+    for a_, ty_, term in reversed(kwlets):
+        tree = ('let', ident(a_), lean_ty(ty_), term, tree)
     pure = is_pure(tree)
     sig = ' '.join(f'({ident(p)} : {lean_ty(t)})' for p, t in params)
     fuel_name = tr.fuel_name or 'rec_fuel'
